@@ -65,14 +65,24 @@ package interp
 //@   ensures[C20] !set && !(!issp(name) && !ispos(name)) ==> v.Value == ""
 
 // The store is written, inside the package, only by the assigning forms of
-// parameter expansion and by the assigning actions of the arithmetic grammar:
+// parameter expansion and by the assigning actions of the arithmetic grammar
+// (through assign, which stores nothing once an error has been reported):
 // nothing else that Expand or Eval reaches calls Set, and nothing calls Unset.
 //@ func (*ExecEnv).Set
-//@   calledby[C20] interp.(*ExecEnv).expandParam interp.action<* interp.(*yyParserImpl).Parse
+//@   calledby[C20] interp.(*ExecEnv).expandParam interp.assign
 //@   preserves[C20] F.interp.ExecEnv.* Mem.* MapHas.Str.Str MapVal.Str.Str F.ast.*
 //@   ensures[C20] issp(name) || ispos(name) ==> mapview(env.vars) == old(mapview(env.vars)) && mapvals(env.vars) == old(mapvals(env.vars))
 //@   ensures[C20] !(issp(name) || ispos(name)) ==> mapview(env.vars) == store(old(mapview(env.vars)), name, true)
 //@   ensures[C20] !(issp(name) || ispos(name)) ==> mapvals(env.vars) == store(old(mapvals(env.vars)), name, Var(name, value, false, false))
+
+// The one place the arithmetic grammar writes the store from: nothing is
+// stored once an error has been reported (a failed operand leaves a zero
+// behind, which an enclosing assignment would otherwise store).
+//@ func assign
+//@   requires yylex is *lexer && yylex.(*lexer) != nil && yylex.(*lexer).env != nil
+//@   site STORE = call interp.(*ExecEnv).Set
+//@   ensures[C11 C20] no-assignment-after-an-error: old(yylex.(*lexer).err) != nil ==> !site(STORE)
+//@   ensures[C11 C20] stores-the-decimal-value-under-the-name: old(yylex.(*lexer).err) == nil ==> site(STORE) && sitearg(STORE, 1) == name && sitearg(STORE, 2) == itoa(n)
 
 //@ func (*ExecEnv).Unset
 //@   calledby[C20] nobody
@@ -406,35 +416,35 @@ package interp
 
 //@ action postfix_expr: postfix_expr INC
 //@   site ERR = call Error
-//@   site SET = call interp.(*ExecEnv).Set
+//@   site SET = call interp.assign
 //@   ensures result.expr.s == ""
 //@   ensures $1.expr.s == "" ==> site(ERR) && !site(SET)
 //@   ensures $1.expr.s != "" ==> !site(ERR)
-//@   assert at call interp.(*ExecEnv).Set: post-inc: ok && arg1 == $1.expr.s && yyVAL.expr.n == n && arg2 == itoa(n + 1)
+//@   assert at call interp.assign: post-inc: ok && arg1 == $1.expr.s && yyVAL.expr.n == n && arg2 == n + 1
 
 //@ action postfix_expr: postfix_expr DEC
 //@   site ERR = call Error
-//@   site SET = call interp.(*ExecEnv).Set
+//@   site SET = call interp.assign
 //@   ensures result.expr.s == ""
 //@   ensures $1.expr.s == "" ==> site(ERR) && !site(SET)
 //@   ensures $1.expr.s != "" ==> !site(ERR)
-//@   assert at call interp.(*ExecEnv).Set: post-dec: ok && arg1 == $1.expr.s && yyVAL.expr.n == n && arg2 == itoa(n - 1)
+//@   assert at call interp.assign: post-dec: ok && arg1 == $1.expr.s && yyVAL.expr.n == n && arg2 == n - 1
 
 //@ action unary_expr: INC unary_expr
 //@   site ERR = call Error
-//@   site SET = call interp.(*ExecEnv).Set
+//@   site SET = call interp.assign
 //@   ensures result.expr.s == ""
 //@   ensures $2.expr.s == "" ==> site(ERR) && !site(SET)
 //@   ensures $2.expr.s != "" ==> !site(ERR)
-//@   assert at call interp.(*ExecEnv).Set: pre-inc: ok && arg1 == $2.expr.s && yyVAL.expr.n == n + 1 && arg2 == itoa(n + 1)
+//@   assert at call interp.assign: pre-inc: ok && arg1 == $2.expr.s && yyVAL.expr.n == n + 1 && arg2 == n + 1
 
 //@ action unary_expr: DEC unary_expr
 //@   site ERR = call Error
-//@   site SET = call interp.(*ExecEnv).Set
+//@   site SET = call interp.assign
 //@   ensures result.expr.s == ""
 //@   ensures $2.expr.s == "" ==> site(ERR) && !site(SET)
 //@   ensures $2.expr.s != "" ==> !site(ERR)
-//@   assert at call interp.(*ExecEnv).Set: pre-dec: ok && arg1 == $2.expr.s && yyVAL.expr.n == n - 1 && arg2 == itoa(n - 1)
+//@   assert at call interp.assign: pre-dec: ok && arg1 == $2.expr.s && yyVAL.expr.n == n - 1 && arg2 == n - 1
 
 //@ action unary_expr: unary_op unary_expr
 //@   ensures result.expr.s == ""
@@ -515,11 +525,11 @@ package interp
 //@ action expr: unary_expr assign_op expr
 //@   faults div shift
 //@   site ERR = call Error
-//@   site SET = call interp.(*ExecEnv).Set
+//@   site SET = call interp.assign
 //@   requires len($2.op) >= 1
 //@   ensures result.expr.s == ""
 //@   ensures $1.expr.s == "" ==> site(ERR) && !site(SET)
 //@   ensures $1.expr.s != "" ==> !site(ERR)
 //@   ensures $1.expr.s != "" && $2.op == "=" && $3.expr.s == "" ==> result.expr.n == $3.expr.n && site(SET)
-//@   assert at call interp.(*ExecEnv).Set: assign: ok && arg1 == $1.expr.s && arg2 == itoa(yyVAL.expr.n)
+//@   assert at call interp.assign: assign: ok && arg1 == $1.expr.s && arg2 == yyVAL.expr.n
 //@   assert at call interp.calculate: compound: arg1 == $1.expr && arg3 == $3.expr && arg2 == $2.op[:len($2.op)-1] && $2.op != "="
